@@ -29,6 +29,10 @@
 From Coq Require Import List Bool Arith.
 Import ListNotations.
 
+(** hypotheses on the external functions, named so that the theorems stay readable *)
+Definition eqb_correct {A} (f : A -> A -> bool) : Prop := forall a b, f a b = true <-> a = b.
+Definition injective {A B} (f : A -> B) : Prop := forall a b, f a = f b -> a = b.
+
 Inductive outcome := OOk | OErr | OPanic.
 
 (** what the caller of an operation gets back: the outcome of its body, or
@@ -142,6 +146,20 @@ Section LockModel.
   Definition init (os : list op) (d0 : oid -> data) : sys :=
     mkSys [] d0 os (map (fun _ => Waiting) os) [] [] [].
 
+  (** specification vocabulary *)
+  Definition running_at (st : sys) (i : nat) (o : op) (p : prog) : Prop :=
+    nth_error (ops st) i = Some o /\ nth_error (pcs st) i = Some (Running p).
+  Definition reachable (os : list op) (d0 : oid -> data) (st : sys) : Prop :=
+    exists sched, st = run_sched (init os d0) sched.
+  (** equality of the real (non-ghost) state: lock table as a set, data pointwise *)
+  Definition sys_equiv (a c : sys) : Prop :=
+    (forall k, In k (locks a) <-> In k (locks c)) /\
+    (forall o, store a o = store c o) /\
+    pcs a = pcs c /\ ops a = ops c.
+  (** the operation got its lock (it is inside its body or returned the outcome of its body) *)
+  Definition acquired (p : pc) : bool :=
+    match p with Running _ => true | Finished (RRet _) => true | _ => false end.
+
   Definition is_running (p : pc) : bool := match p with Running _ => true | _ => false end.
   Definition is_finished (p : pc) : bool := match p with Finished _ => true | _ => false end.
   Definition all_finished (st : sys) : bool := forallb is_finished (pcs st).
@@ -217,4 +235,5 @@ Arguments ARel {oid key data}.
 Arguments upd_nth {A}.
 Arguments run_prog {data}.
 Arguments is_running {data}.
+Arguments acquired {data}.
 Arguments is_finished {data}.
